@@ -153,7 +153,7 @@ impl super::Protocol for Protocol {
         let mut read_dir = tokio::fs::read_dir(&path).await.map_err(fail)?;
         let mut entries = Vec::new();
         while let Some(dir_entry) = read_dir.next_entry().await.map_err(fail)? {
-            if let Some(dir_entry) = collect_tokio_dir_entry(dir_entry).await {
+            if let Some(dir_entry) = collect_tokio_dir_entry(dir_entry).await.map_err(fail)? {
                 entries.push(dir_entry);
             }
         }
@@ -215,31 +215,37 @@ impl super::Protocol for Protocol {
     }
 }
 
-async fn collect_tokio_dir_entry(dir_entry: tokio::fs::DirEntry) -> Option<DirEntry> {
+/// Convert one directory entry; `Ok(None)` for an entry that is not an archive file (a name
+/// that is not UTF-8, a symlink or special file) or that has vanished since the directory was
+/// read. Any other failure to examine an entry is an error and fails the listing, so that
+/// callers never mistake an incomplete listing for a complete one.
+async fn collect_tokio_dir_entry(dir_entry: tokio::fs::DirEntry) -> io::Result<Option<DirEntry>> {
     if let Ok(name) = dir_entry.file_name().into_string() {
         match dir_entry.file_type().await {
-            Ok(t) if t.is_dir() => Some(DirEntry {
+            Ok(t) if t.is_dir() => Ok(Some(DirEntry {
                 name,
                 kind: Kind::Dir,
                 len: None,
-            }),
-            Ok(t) if t.is_file() => Some(DirEntry {
-                name,
-                kind: Kind::File,
-                len: Some(dir_entry.metadata().await.ok()?.len()),
-            }),
+            })),
+            Ok(t) if t.is_file() => match dir_entry.metadata().await {
+                Ok(metadata) => Ok(Some(DirEntry {
+                    name,
+                    kind: Kind::File,
+                    len: Some(metadata.len()),
+                })),
+                Err(err) if err.kind() == io::ErrorKind::NotFound => Ok(None),
+                Err(err) => Err(err),
+            },
             Ok(other) => {
                 warn!("Unexpected file type in archive: {name:?}: {other:?}");
-                None
+                Ok(None)
             }
-            Err(err) => {
-                warn!("Failed to get file type for {name:?}: {err:?}");
-                None
-            }
+            Err(err) if err.kind() == io::ErrorKind::NotFound => Ok(None),
+            Err(err) => Err(err),
         }
     } else {
         warn!("Non-UTF-8 filename in archive {:?}", dir_entry.file_name());
-        None
+        Ok(None)
     }
 }
 
